@@ -481,6 +481,17 @@ namespace
             out.line({20, k, code});
             return;
         }
+        Line reps{23, k};
+        if (!prog.stmts.empty())
+        {
+            const std::int64_t maxl = prog.stmts.rbegin()->first;
+            for (std::int64_t l = 0; l <= maxl; ++l)
+            {
+                auto it = wr.rep.find(l);
+                reps.push_back(it == wr.rep.end() ? -1 : it->second);
+            }
+        }
+        out.line(reps);   // printed before finish: the interning map exists even if finish rejects
         std::optional<GraphBuilder> gb;
         try { gb.emplace(std::move(wr.w).finish()); }
         catch (const std::exception &e)
@@ -501,17 +512,6 @@ namespace
             has_push           = has_push || (schema != nullptr && schema->node_kind == NodeKind::PushSource);
         }
         out.line(nodes);
-        Line reps{23, k};
-        if (!prog.stmts.empty())
-        {
-            const std::int64_t maxl = prog.stmts.rbegin()->first;
-            for (std::int64_t l = 0; l <= maxl; ++l)
-            {
-                auto it = wr.rep.find(l);
-                reps.push_back(it == wr.rep.end() ? -1 : it->second);
-            }
-        }
-        out.line(reps);
         std::vector<Line> edges;
         for (const GraphEdge &e : gb->edges())
         {
